@@ -83,6 +83,13 @@ def cases(prop, shard, nshards, seed, tier, want_models=False):
         for v in range(2 if tier == "quick" else 6):
             if mine():
                 yield {"family": "through-reader-field-edges", "file": fn, "t": t * 10 + v, "ops": []}
+    # through the table-level reader, the fitting to PDB limits and the PDB writer, then the residue-level reader: models
+    # that are not numbered 1..N (a selection from an ensemble), chains of mixed name lengths (B next to A-2), insertion
+    # codes under a chain name that needs renaming
+    for kind in ("ensemble-selection", "mixed-chain-name-lengths", "insertion-codes-and-long-chain-name"):
+        if mine():
+            yield {"family": "through-the-table-writer", "kind": kind, "file": {"ensemble-selection": "tests/2HY9.cif", "mixed-chain-name-lengths": "tests/4gqj-assembly1.cif",
+                                                                                  "insertion-codes-and-long-chain-name": "tests/1ehz-assembly-1.cif"}[kind], "ops": []}
     # through the real reader: the text of a structure in which a few residues have a nearly superposed second copy
     # (a disorder deposited as two chains, as B/D of 488d.pdb) with equal or unequal occupancies - what the reader
     # keeps of the two copies is what gets annotated
@@ -319,7 +326,65 @@ def field_edges_rows(rows, rng):
     return desc
 
 
-def structure_from_rows(rows, read):
+def table_writer_pipeline(prop, case, rec, call):
+    """rows -> mmCIF text -> parse_cif_atoms -> fit_to_pdb -> write_pdb -> read_3d_structure(model) -> annotation,
+    compared (by residue position: the fitting renames chains and residues) with the annotation of the written atoms."""
+    from rnapolis import parser_v2
+    from vmon import emit
+
+    kind = case["kind"]
+    if kind == "ensemble-selection":
+        rows = []
+        for m in (2, 5, 9):
+            rows += emit.rows_from_structure(gen3d.load(case["file"], m))
+        models = [2, 5, 9]
+    elif kind == "mixed-chain-name-lengths":
+        rows = [r for r in emit.rows_from_structure(gen3d.load(case["file"], 1)) if r["chain"] in ("B", "A-2")]
+        rows = [r for r in rows if r["chain"] == "B"] + [r for r in rows if r["chain"] == "A-2"]
+        models = [rows[0]["model"]] if rows else []
+    else:
+        base = gen3d.apply_ops(gen3d.load(case["file"], 1), [{"op": "icodes", "seed": "table-writer", "frac": 0.7}])
+        rows = [dict(r, chain="RNA1") for r in emit.rows_from_structure(base)]
+        models = [rows[0]["model"]] if rows else []
+    if not rows:
+        rec.skip("file.annotation-equals-annotation-of-the-written-atoms", "no rows")
+        return
+    for i, r in enumerate(rows, 1):
+        r["serial"] = i
+    desc = {"file": case["file"], "route": "mmCIF text -> parse_cif_atoms -> fit_to_pdb -> write_pdb -> read_3d_structure", "kind": kind, "models": models}
+    try:
+        pdb_text = parser_v2.write_pdb(parser_v2.fit_to_pdb(parser_v2.parse_cif_atoms(emit.emit_cif(rows))))
+    except Exception as e:
+        rec.undecided("file.annotation-equals-annotation-of-the-written-atoms", f"conversion raised {type(e).__name__}")
+        return
+    for m in models:
+        mon3d._cur["ctx"] = dict(desc, model=m)
+        try:
+            s = emit.read_text(pdb_text, ".pdb", m)
+        except Exception as e:
+            rec.violation("file.annotation-equals-annotation-of-the-written-atoms", {"ctx": dict(desc, model=m), "reader-exception": repr(e)[:200]}, mechanism=f"crash:{type(e).__name__}:reader")
+            continue
+        n = call(s, m)
+        rec.mark_nontrivial(n > 0)
+        mrows = [r for r in rows if r["model"] == m]
+        nres = len({(r["chain"], r["resseq"], r["icode"], r["resname"]) for r in mrows})
+        got_res = [r for r in s.residues if r.model == m]
+        if len(got_res) != nres or sum(len(r.atoms) for r in got_res) != len(mrows):
+            rec.violation("file.annotation-equals-annotation-of-the-written-atoms",
+                          {"ctx": dict(desc, model=m), "residues": [len(got_res), nres], "atoms": [sum(len(r.atoms) for r in got_res), len(mrows)]}, mechanism=None)
+            continue
+        twin = structure_from_rows(mrows, s, letters_in_order=[r.one_letter_name for r in got_res])
+        mon3d._cur["ctx"] = dict(desc, model=m, twin="in-memory structure of the written table")
+        try:
+            a, b = _interaction_keys(s, prop, by_position=True, model=m), _interaction_keys(twin, prop, by_position=True)
+        except Exception as e:
+            rec.undecided("file.annotation-equals-annotation-of-the-written-atoms", f"annotation raised {type(e).__name__}")
+            continue
+        rec.check("file.annotation-equals-annotation-of-the-written-atoms", a == b,
+                  lambda: {"ctx": dict(desc, model=m), "only-for-the-file": sorted(map(str, a - b))[:5], "only-for-the-written-atoms": sorted(map(str, b - a))[:5]})
+
+
+def structure_from_rows(rows, read, letters_in_order=None):
     """Structure3D holding exactly the atoms of `rows` (first model), identified by author identity; one-letter names
     as the reader decided them for the same residue (fallback: the residue name's last letter)."""
     from rnapolis import tertiary
@@ -341,18 +406,27 @@ def structure_from_rows(rows, read):
             order.append(k)
         groups[k].append(r)
     residues = []
-    for k in order:
+    for pos, k in enumerate(order):
         auth = ResidueAuth(k[0], k[1], k[2], k[3])
         atoms = tuple(tertiary.Atom(None, None, auth, first, r["name"], float(r["x"]), float(r["y"]), float(r["z"]), r["occ"]) for r in groups[k])
-        residues.append(tertiary.Residue3D(None, auth, first, letters.get((k[0], k[1], k[2]), k[3][-1:]), atoms))
+        letter = letters_in_order[pos] if letters_in_order is not None and pos < len(letters_in_order) else letters.get((k[0], k[1], k[2]), k[3][-1:])
+        residues.append(tertiary.Residue3D(None, auth, first, letter, atoms))
     return tertiary.Structure3D(residues)
 
 
-def _interaction_keys(s, prop):
+def _interaction_keys(s, prop, by_position=False, model=None):
     from rnapolis import annotator
 
-    bi = annotator.extract_base_interactions(s, None)
+    bi = annotator.extract_base_interactions(s, model)
     ak = lambda r: (r.auth.chain, r.auth.number, r.auth.icode, r.auth.name) if r.auth is not None else None
+    if by_position:
+        # residues named by their position in the (model's) residue list: comparable across a renaming
+        posn = {}
+        for r in s.residues:
+            if model is None or r.model == model:
+                posn.setdefault(ak(r), len(posn))
+        ident = ak
+        ak = lambda r: posn.get(ident(r), ("?", ident(r)))
     out = set()
     if prop in ("C03", "C11"):
         out |= {("pair", ak(p.nt1), ak(p.nt2), p.lw.value) for p in bi.basePairs}
@@ -533,6 +607,8 @@ def run_case(prop, case, rec, call):
             n += call(s, m)
         rec.mark_nontrivial(n > 0)
         return
+    if fam == "through-the-table-writer":
+        return table_writer_pipeline(prop, case, rec, call)
     if fam == "through-reader-field-edges":
         s, desc, rows = field_edges_text(seed, prop, case, want_rows=True)
         mon3d._cur["ctx"] = desc
